@@ -323,3 +323,15 @@ def main(ctx):
     ctx.pmap('hyp_shard', [('roundtrip', k, n // w) for k in range(w)] +
              [('refusal', k, n // (2 * w)) for k in range(w)] +
              [('mutants', k, 4 * n // w) for k in range(w)])
+    if ctx.tier == 'thorough':
+        from lib.harness import run_fuzz
+        seeds = []
+        ev = [{'type': 'note_on', 'channel': 0, 'note': 60, 'velocity': 64, 'time': 0},
+              {'type': 'note_on', 'channel': 0, 'note': 62, 'velocity': 64, 'time': 128},
+              {'type': 'set_tempo', 'tempo': 500000, 'time': 0}, {'type': 'sysex', 'data': [1, 2, 3], 'time': 5},
+              {'type': 'unknown_meta', 'type_byte': 0x60, 'data': [9], 'time': 1},
+              {'type': 'song_select', 'song': 3, 'time': 0}, {'type': 'end_of_track', 'time': 0}]
+        for fmt, tracks in ((0, [ev]), (1, [ev[:3] + ev[-1:], ev[3:]]), (2, [ev[:2] + ev[-1:]])):
+            seeds.append(F.encode_file(fmt, 480, tracks)[0])
+            seeds.append(F.encode_file(fmt, 96, tracks, {'header_extra': 2, 'ev': [[[True, 1, 1] for _ in t] for t in tracks]})[0])
+        run_fuzz(ctx, 'C07', 500000, seeds, max_len=200)
